@@ -175,7 +175,21 @@ pub fn world_c18(tier: Tier, world_no: u64, mut t: Tape) -> WorldReport {
             },
         );
         force_process = p.env_twice;
-        (format!("generated-{world_no}"), p.source(), false)
+        let mut src = p.source();
+        // a transaction name declared twice, the second time with one more parameter (the grammar and
+        // the analyzer take it; which declaration an artifact describes must not vary from build to build)
+        if t.draw(10) == 9 {
+            if let Some(at) = src.find("\ntx ") {
+                let block_end = src[at + 1..].find("\ntx ").map(|e| at + 1 + e).unwrap_or(src.len());
+                let block = src[at..block_end].to_string();
+                if let Some(open) = block.find("(\n") {
+                    let twin = format!("{}(\n    dupz: Int,\n{}", &block[..open], &block[open + 2..]);
+                    src.push_str(&twin);
+                    force_process = true;
+                }
+            }
+        }
+        (format!("generated-{world_no}"), src, false)
     };
     let nseeds = 8usize;
     let seeds: Vec<u64> = (0..nseeds).map(|_| 1 + t.draw(1 << 40)).collect();
@@ -551,6 +565,52 @@ pub fn world_c18(tier: Tier, world_no: u64, mut t: Tape) -> WorldReport {
                                         want.len(),
                                         crate::tape::clip(&order.join(" | "), 900)
                                     ),
+                                );
+                            }
+                        }
+                    }
+                }
+            }
+            // (a') the same build twice at the same time onto the *same* path (a watcher firing twice, two
+            // CI jobs sharing a workspace): both write the same bytes, so whatever the interleaving - and
+            // with interrupted or short writes on the way - the path ends up holding them
+            {
+                let out = sdir.join("twice.tii");
+                let spec = ProcSpec { src_path: src_path.to_str().unwrap().into(), out_path: out.to_str().unwrap().into(), hseed: seeds[0], extra: extra.clone() };
+                let specs = vec![spec.clone(), spec];
+                let mut hard = false;
+                let mut decide = |pending: &[(usize, String)]| {
+                    let k = t.index(pending.len());
+                    let is_write = pending[k].1.starts_with("write ");
+                    let v = match t.draw(10) {
+                        8 => Verdict::Eintr,
+                        9 if is_write => Verdict::Short,
+                        _ => Verdict::Go,
+                    };
+                    if v != Verdict::Go {
+                        hard = true;
+                    }
+                    (pending[k].0, v)
+                };
+                match run_scheduled(&specs, &sdir_s, &mut decide) {
+                    Err(e) => {
+                        rep.harness_error = Some(format!("process-level schedule: {e}"));
+                        return rep;
+                    }
+                    Ok((outs, order)) => {
+                        for l in &order {
+                            d.str(&l.replace(dir.to_str().unwrap_or(""), ""));
+                        }
+                        rep.fire("same-build-twice-onto-one-path");
+                        rep.evaluations += 1;
+                        if outs.iter().all(|o| o.code == Some(0)) {
+                            let got = std::fs::read(&out).unwrap_or_default();
+                            if &got != first {
+                                rep.violate(
+                                    "C18",
+                                    "L5-concurrent",
+                                    if hard { "same-build-twice-onto-one-path/with-interrupted-writes" } else { "same-build-twice-onto-one-path" },
+                                    format!("`{name}`: the same build ran twice at the same time onto one path; both exited 0 but the path holds {} bytes that differ from the {} bytes either writes alone; schedule: {}", got.len(), first.len(), crate::tape::clip(&order.join(" | "), 900)),
                                 );
                             }
                         }
